@@ -67,6 +67,14 @@ CHECKS = {
          "result of scanning it alone, for every matcher kind, direct and fragmented; correspondence on pairs of rule sets built "
          "to collide on atoms, all interleavings for small sets.", "DESIGN.md §7 C12, notes/C12.md",
          "The rule-level union statement relies on C05 and is checked implementation against implementation."),
+ "C13": ("proof", "Clone isolation over all histories of clone / define_symbol / set_scan_params / set_module_data / scan (each "
+         "clone's observable state is the fold of its own operations), define_symbol typing and visibility, hash-cache "
+         "transparency and per-scan lifetime, schedule independence of a small-step model of concurrent scans under the "
+         "cache-pool hypothesis; correspondence on real Scanner histories and hash-call sequences; real thread schedules "
+         "(1-16 threads, shared scanner or clones, seeded yields) are explored against a sequential oracle.",
+         "DESIGN.md §7 C13, notes/C13.md",
+         "A scan is an abstract function of the scanner's four fields and the input; regex-automata's cache-pool contract is an "
+         "explicit premise (shown necessary by a refuted variant); OS scheduling is sampled, not forced."),
  "C14": ("proof", "C14_limit: no string exceeds string_max_nb_matches for any matcher kind and region layout; match records are "
          "StringMatch::new of one fetched region (bounds, positive length, capped data); prefix relation for raw matchers; "
          "correspondence on max_len x limit boundary grids for every matcher kind.", "DESIGN.md §7 C14, notes/C14.md",
@@ -105,7 +113,6 @@ CHECKS = {
 PENDING = {
  "C03": "check under construction (regex strings / matches operator: Spec/Regex.v exists, property module not yet registered)",
  "C07": "check under construction (three-way run against libyara 4.5.5 not yet built)",
- "C13": "check under construction (clone isolation / cache transparency model in progress)",
 }
 
 
